@@ -663,7 +663,7 @@ func confirmBigCoefFinding(t *testing.T) {
 // lengths, and a date of year 1e99999999 is not a supported value).
 func c03Extremes() []string {
 	nums := []string{"1e-99999999", "-1e-99999999", "1e99999999", "-7e-999999999", "3e999999999", "'1e-99999999'", "(1e-50000000*1e-50000000)", "1e-9999999", "-5e-1000000", "123456789e-99999999", "toFloat('-1e-77777777')"}
-	fns := []string{"abs(%s)", "ceil(%s)", "floor(%s)", "round(%s)", "roundBank(%s)", "roundCash(%s, 2)", "roundCash(2, %s)", "sqrt(%s)", "finite(%s)", "max(%s, 1)", "min(%s, 1)", "toInt(%s)", "toFloat(%s)", "toString(%s)", "%s %% 7", "7 %% %s", "-7 %% %s", "%s %% -7", "%s + 1", "1 - %s", "%s * 3", "3 / %s", "%s / 3", "%s == 1", "%s < 1", "1 > %s", "-%s", "%s %% 1e-5", "%s %% %[1]s", "exp(%s)", "ln(%s)", "log(%s)", "%s & 1", "1 | %s", "%s ? 1 : 2", "'' + %s", "[%s, %[1]s][0]", "ceil(floor(%s) + %[1]s)", "round(%s %% 3)"}
+	fns := []string{"abs(%s)", "ceil(%s)", "floor(%s)", "round(%s)", "roundBank(%s)", "roundCash(%s, 2)", "roundCash(2, %s)", "sqrt(%s)", "finite(%s)", "max(%s, 1)", "min(%s, 1)", "toInt(%s)", "toFloat(%s)", "toString(%s)", "%s %% 7", "7 %% %s", "-7 %% %s", "%s %% -7", "%s + 1", "1 - %s", "%s * 3", "3 / %s", "%s / 3", "%s == 1", "%s < 1", "1 > %s", "-%s", "%s %% 1e-5", "%s %% %[1]s", "exp(%s)", "ln(%s)", "log(%s)", "%s & 1", "1 | %s", "%s ? 1 : 2", "'' + %s", "[%s, %[1]s]", "ceil(floor(%s) + %[1]s)", "round(%s %% 3)"}
 	var out []string
 	for _, n := range nums {
 		for _, f := range fns {
